@@ -277,7 +277,9 @@ def truth(files, origin=ORIGIN):
                       children; an entity that (transitively) depends on itself is not resolvable
     reason            first obstacle found (text), or None
     file_revisit      some dependency path re-enters a file it already visited (the origin file counts as
-                      visited): the property's exclusion when no entity depends on itself
+                      visited), or the files reachable from the origin import from each other in a circle (whether
+                      or not anything depends on those imports): the property's exclusion when no entity depends
+                      on itself
     local_units_cycle the closure contains a cycle among local (non-import) units of one file
     entity_cycle      some entity depends on itself through at least one import
     hidden_import     the closure contains a dependency edge in a non-origin file that Importer::fetchUnits /
@@ -443,10 +445,43 @@ def truth(files, origin=ORIGIN):
             ru(origin, om, u, [], [])
     for c in om[3]:
         rc(origin, om, c, [], [])
-    return Truth(ok, reason, st["revisit"], st["lcycle"], st["ecycle"], _hidden_import(files, origin),
+    return Truth(ok, reason, st["revisit"] or _file_cycle(files, origin), st["lcycle"], st["ecycle"],
+                 _hidden_import(files, origin),
                  st["sibling"], st["dangling"], st["perr"], st["twin"], tuple(sorted(st["files"])), st["depth"],
                  tuple(roots), _name_capture(files, origin),
                  any(c[2] is not None and c[4] for d in files.values() if is_model(d) for c in all_comps(d)))
+
+
+def _file_cycle(files, origin):
+    """the property's exclusion at file level: among the files reachable from the origin through imports (of any
+    entity, needed or not) some file imports itself, or files import from each other in a circle, or some file
+    imports the origin's own file"""
+    def urls(d):
+        out = set()
+        if is_model(d):
+            out |= {u[2] for u in d[2] if u[0] == "I"}
+            out |= {c[2][0] for c in all_comps(d) if c[2] is not None}
+        return out
+    graph = {}
+    todo = [origin]
+    while todo:
+        f = todo.pop()
+        if f in graph:
+            continue
+        graph[f] = urls(files.get(f))
+        todo.extend(graph[f])
+    if any(origin in g for g in graph.values()):
+        return True
+    # cycle detection by repeated removal of files without outgoing edges into the remaining set
+    live = set(graph)
+    changed = True
+    while changed:
+        changed = False
+        for f in list(live):
+            if not (graph[f] & live):
+                live.discard(f)
+                changed = True
+    return bool(live)
 
 
 def _hidden_import(files, origin):
